@@ -195,3 +195,228 @@ Section Add64.
     fold d sv. cbn [alu]. rewrite !Z.add_0_r. fold cfb ofb. cbn [opt_done]. reflexivity.
   Qed.
 End Add64.
+
+(* ---- SUB ---- *)
+From AxG Require Import I_sub.
+
+Lemma cast_u64_i128 x : 0 <= x < 2 ^ 64 -> cast U64 I128 x = x.
+Proof.
+  intros H. unfold cast, Bits.sem, enc, modulus; cbn [signed width]. apply Z.mod_small.
+  change (2 ^ 128) with 340282366920938463463374607431768211456. change (2 ^ 64) with 18446744073709551616 in *. lia.
+Qed.
+
+Lemma sub_result d sv : 0 <= d < 2 ^ 64 -> 0 <= sv < 2 ^ 64 ->
+  cast I64 U64 (wsub I64 (cast U64 I64 d) (cast U64 I64 sv)) = (d - sv) mod 2 ^ 64.
+Proof.
+  intros Hd Hs. unfold cast, wsub, Bits.sem, enc, modulus; cbn [signed width].
+  change (2 ^ (64 - 1)) with 9223372036854775808. change (2 ^ 64) with 18446744073709551616 in *.
+  repeat match goal with |- context [if ?b then _ else _] => destruct b end; lia.
+Qed.
+
+Lemma bit63_of_land_lxor d sv r :
+  0 <= d < 2 ^ 64 -> 0 <= sv < 2 ^ 64 -> 0 <= r < 2 ^ 64 ->
+  (Z.land (Z.land (Z.lxor d sv) (Z.lxor d r)) (2 ^ 63) =? 0) =
+  negb (xorb (2 ^ 63 <=? d) (2 ^ 63 <=? sv) && xorb (2 ^ 63 <=? d) (2 ^ 63 <=? r)).
+Proof.
+  intros Hd Hs Hr. rewrite land_pow2_testbit by lia. rewrite Z.land_spec, !Z.lxor_spec.
+  rewrite !(testbit_top _ 63) by (try lia; assumption). reflexivity.
+Qed.
+
+Lemma lor_pow2_add d n : 0 <= n -> 0 <= d < 2 ^ n -> Z.lor d (2 ^ n) = d + 2 ^ n.
+Proof.
+  intros Hn Hd.
+  assert (Z : Z.land d (2 ^ n) = 0).
+  { apply Z.bits_inj'. intros k Hk. rewrite Z.land_spec, Z.testbit_0_l.
+    destruct (Z.eq_dec k n) as [->|N]; [|rewrite Z.pow2_bits_false by lia; apply andb_false_r].
+    destruct (Z.eq_dec d 0) as [->|Nz]; [rewrite Z.testbit_0_l; reflexivity|].
+    rewrite (Z.bits_above_log2 d n); [reflexivity|lia|apply Z.log2_lt_pow2; lia]. }
+  rewrite <- Z.lxor_lor by exact Z. rewrite <- Z.add_nocarry_lxor by exact Z. reflexivity.
+Qed.
+
+Lemma sub64_closure d sv :
+  0 <= d < 2 ^ 64 -> 0 <= sv < 2 ^ 64 ->
+  (let v_result := cast I64 U64 (wsub I64 (cast U64 I64 d) (cast U64 I64 sv)) in
+   (v_result,
+    Z.lor (if negb (Z.land (Z.land (Z.lxor (cast U64 I128 d) (cast U64 I128 sv)) (Z.lxor (cast U64 I128 d) (cast U64 I128 v_result)))
+                           9223372036854775808 =? 0) then FLAG_OF else 0)
+          (if Z.land (wsub I128 (Z.lor (cast U64 I128 d) 18446744073709551616) (cast U64 I128 sv)) 18446744073709551616 =? 0
+           then FLAG_CF else 0)))
+  = ((d - sv) mod 2 ^ 64,
+     Z.lor (b2f (negb (fits_signed 64 (sgn 64 d - sgn 64 sv))) FLAG_OF) (b2f (d <? sv) FLAG_CF)).
+Proof.
+  intros Hd Hs. cbv zeta. rewrite sub_result by assumption.
+  set (r := (d - sv) mod 2 ^ 64). assert (Hr : 0 <= r < 2 ^ 64) by (apply Z.mod_pos_bound; reflexivity).
+  rewrite !cast_u64_i128 by assumption.
+  change 9223372036854775808 with (2 ^ 63). rewrite (bit63_of_land_lxor d sv r Hd Hs Hr).
+  f_equal. f_equal.
+  - (* OF *)
+    f_equal. unfold fits_signed, sgn. change (2 ^ (64 - 1)) with (2 ^ 63). unfold r in *.
+    change (2 ^ 63) with 9223372036854775808 in *. change (2 ^ 64) with 18446744073709551616 in *.
+    destruct (Z.leb_spec 9223372036854775808 ((d - sv) mod 18446744073709551616));
+      destruct (Z.leb_spec 9223372036854775808 d); destruct (Z.leb_spec 9223372036854775808 sv);
+      destruct (Z.ltb_spec d 9223372036854775808); destruct (Z.ltb_spec sv 9223372036854775808); try lia;
+      cbn [xorb negb andb];
+      match goal with |- context [(?a <=? ?b) && (?x <? ?y)] => destruct (Z.leb_spec a b); destruct (Z.ltb_spec x y) end;
+      cbn [negb andb]; try reflexivity; lia.
+  - (* CF: the borrow *)
+    assert (L : Z.lor d 18446744073709551616 = d + 18446744073709551616) by (apply (lor_pow2_add d 64); [lia|assumption]).
+    rewrite L.
+    assert (W : wsub I128 (d + 18446744073709551616) sv = d + 18446744073709551616 - sv).
+    { unfold wsub, Bits.sem, enc, modulus; cbn [signed width]. change (2 ^ (128 - 1)) with 170141183460469231731687303715884105728.
+      change (2 ^ 128) with 340282366920938463463374607431768211456. change (2 ^ 64) with 18446744073709551616 in *.
+      repeat match goal with |- context [if ?b then _ else _] => destruct b eqn:? end;
+        try (apply Z.ltb_ge in Heqb; lia); try (apply Z.ltb_ge in Heqb0; lia); apply Z.mod_small; lia. }
+    rewrite W. change 18446744073709551616 with (2 ^ 64).
+    rewrite (land_signbit (d + 2 ^ 64 - sv) 64) by (try lia; change (2 ^ (64 + 1)) with 36893488147419103232; change (2 ^ 64) with 18446744073709551616 in *; lia).
+    change (2 ^ 64) with 18446744073709551616 in *.
+    destruct (Z.leb_spec 18446744073709551616 (d + 18446744073709551616 - sv)); destruct (Z.ltb_spec d sv); try lia; reflexivity.
+Qed.
+
+Section Sub64.
+  Variables (c : cfg) (i : instr) (s : mstate).
+  Hypothesis Hwf : wf_regs s.
+  Hypothesis Hrf : 0 <= rflags s < 2 ^ 64.
+  Hypothesis Hn : i_op_count i = 2.
+  Hypothesis K0 : i_op_kind i 0 = OK_Register.
+  Hypothesis K1 : i_op_kind i 1 = OK_Register.
+  Hypothesis H0 : is_gpr64 (i_op_register i 0) = true.
+  Hypothesis H1 : is_gpr64 (i_op_register i 1) = true.
+
+  (* SUB r/m64, r64 on registers: difference modulo 2^64, CF = unsigned borrow, OF = signed overflow,
+     SF/ZF/PF from the result, every other flag bit kept, nothing else touched *)
+  Theorem sub_rm64_r64_refines :
+    i_code i = C_Sub_rm64_r64 ->
+    exists s', instr_sub_rm64_r64 c i s = (Ok tt, s') /\ isa_exec (SAlu SUB 64) i s = IDone s' 0.
+  Proof.
+    intros Ec. unfold instr_sub_rm64_r64. rewrite Ec.
+    rewrite (bind_ok _ _ _ _ _ (dbg_code_ok c s _ eq_refl)).
+    set (d := rf_read (regs s) (i_op_register i 0)). set (sv := rf_read (regs s) (i_op_register i 1)).
+    assert (Hd : 0 <= d < 2 ^ 64) by (apply (rf_read_range64 s); exact H0).
+    assert (Hs : 0 <= sv < 2 ^ 64) by (apply (rf_read_range64 s); exact H1).
+    set (cfb := d <? sv). set (ofb := negb (fits_signed 64 (sgn 64 d - sgn 64 sv))).
+    assert (Hfl : Z.land (Z.lor (b2f ofb FLAG_OF) (b2f cfb FLAG_CF)) NO_WRITEBACK = 0) by (destruct ofb, cfb; reflexivity).
+    rewrite (calc_rm_r_64f_regreg c i s Hwf Hn K0 K1 H0 H1 _ _ _ _ _ (f_equal Ok (sub64_closure d sv Hd Hs)) Hfl).
+    change (Z.lor (Z.lor (Z.lor FLAG_SF FLAG_ZF) FLAG_PF) (Z.lor (b2f ofb FLAG_OF) (b2f cfb FLAG_CF))) with (arith_fs cfb ofb).
+    change (Z.lor FLAG_CF FLAG_OF) with 2049.
+    rewrite (bind_ok _ _ _ _ _ (set_flags_u64_arith c cfb ofb _ s Hrf)).
+    change (Z.land (Z.lor (Z.lor FLAG_SF FLAG_ZF) FLAG_PF) NO_WRITEBACK =? 0) with true. cbv iota.
+    rewrite (reg_write_64_ok c _ _ _ H0).
+    eexists. split; [reflexivity|].
+    cbn [isa_exec]. unfold exec_alu, read_op, write_op. rewrite K0, K1. rewrite !rf_read_mod64 by assumption.
+    fold d sv. cbn [alu]. fold cfb ofb. cbn [opt_done]. reflexivity.
+  Qed.
+End Sub64.
+
+(* ---- CMP ---- *)
+From AxG Require Import I_cmp.
+
+Section Cmp64.
+  Variables (c : cfg) (i : instr) (s : mstate).
+  Hypothesis Hwf : wf_regs s.
+  Hypothesis Hrf : 0 <= rflags s < 2 ^ 63.
+  Hypothesis Hn : i_op_count i = 2.
+  Hypothesis K0 : i_op_kind i 0 = OK_Register.
+  Hypothesis K1 : i_op_kind i 1 = OK_Register.
+  Hypothesis H0 : is_gpr64 (i_op_register i 0) = true.
+  Hypothesis H1 : is_gpr64 (i_op_register i 1) = true.
+
+  (* CMP r/m64, r64 on registers: the flags of the subtraction, no register written.
+     (The emulator marks "no write-back" in bit 63 of the flag set and clears that bit from
+     RFLAGS with the others; bit 63 of RFLAGS is reserved-zero, hence [Hrf].) *)
+  Theorem cmp_rm64_r64_refines :
+    i_code i = C_Cmp_rm64_r64 ->
+    exists s', instr_cmp_rm64_r64 c i s = (Ok tt, s') /\ isa_exec (SAlu CMP 64) i s = IDone s' 0.
+  Proof.
+    intros Ec. unfold instr_cmp_rm64_r64. rewrite Ec.
+    rewrite (bind_ok _ _ _ _ _ (dbg_code_ok c s _ eq_refl)).
+    set (d := rf_read (regs s) (i_op_register i 0)). set (sv := rf_read (regs s) (i_op_register i 1)).
+    assert (Hd : 0 <= d < 2 ^ 64) by (apply (rf_read_range64 s); exact H0).
+    assert (Hs : 0 <= sv < 2 ^ 64) by (apply (rf_read_range64 s); exact H1).
+    set (cfb := d <? sv). set (ofb := negb (fits_signed 64 (sgn 64 d - sgn 64 sv))).
+    assert (Hfl : Z.land (Z.lor (b2f ofb FLAG_OF) (b2f cfb FLAG_CF)) NO_WRITEBACK = 0) by (destruct ofb, cfb; reflexivity).
+    rewrite (calc_rm_r_64f_regreg c i s Hwf Hn K0 K1 H0 H1 _ _ _ _ _ (f_equal Ok (sub64_closure d sv Hd Hs)) Hfl).
+    change (Z.lor (Z.lor (Z.lor (Z.lor NO_WRITEBACK FLAG_SF) FLAG_ZF) FLAG_PF) (Z.lor (b2f ofb FLAG_OF) (b2f cfb FLAG_CF))) with (cmp_fs cfb ofb).
+    change (Z.lor FLAG_CF FLAG_OF) with 2049.
+    rewrite (bind_ok _ _ _ _ _ (set_flags_u64_cmp c cfb ofb _ s Hrf)).
+    change (Z.land (Z.lor (Z.lor (Z.lor NO_WRITEBACK FLAG_SF) FLAG_ZF) FLAG_PF) NO_WRITEBACK =? 0) with false. cbv iota.
+    eexists. split; [reflexivity|].
+    cbn [isa_exec]. unfold exec_alu, read_op, write_op. rewrite K0, K1. rewrite !rf_read_mod64 by assumption.
+    fold d sv. cbn [alu]. fold cfb ofb. cbn [opt_done]. reflexivity.
+  Qed.
+End Cmp64.
+
+(* ---- the helper without operation flags (XOR, OR, ...) ---- *)
+Section RegReg64NoFlags.
+  Variables (c : cfg) (i : instr) (s : mstate).
+  Hypothesis Hwf : wf_regs s.
+  Hypothesis Hn : i_op_count i = 2.
+  Hypothesis K0 : i_op_kind i 0 = OK_Register.
+  Hypothesis K1 : i_op_kind i 1 = OK_Register.
+  Hypothesis H0 : is_gpr64 (i_op_register i 0) = true.
+  Hypothesis H1 : is_gpr64 (i_op_register i 1) = true.
+
+  Let r0 := i_op_register i 0.
+  Let r1 := i_op_register i 1.
+  Let d := rf_read (regs s) r0.
+  Let sv := rf_read (regs s) r1.
+
+  Lemma calc_rm_r_64_regreg (op : Z -> Z -> outcome Z) fset fclear res :
+    op d sv = Ok res ->
+    calculate_rm_r_64 c i op fset fclear s =
+    bind (set_flags_u64 c fset fclear res)
+         (fun _ => if Z.land fset NO_WRITEBACK =? 0 then reg_write_64 c r0 res else ret tt) s.
+  Proof.
+    intros Hop.
+    assert (S0 : is_supported r0 = true) by (unfold r0; destruct (i_op_register i 0); try discriminate H0; reflexivity).
+    assert (S1 : is_supported r1 = true) by (unfold r1; destruct (i_op_register i 1); try discriminate H1; reflexivity).
+    assert (O0 : instruction_operand c i 0 s = (Ok (OpRegister r0), s))
+      by (apply operand_register; [rewrite Hn; reflexivity|exact K0|reflexivity|exact S0]).
+    assert (O1 : instruction_operand c i 1 s = (Ok (OpRegister r1), s))
+      by (apply operand_register; [rewrite Hn; reflexivity|exact K1|reflexivity|exact S1]).
+    unfold calculate_rm_r_64, instruction_operands_2. rewrite !bind_assoc.
+    rewrite (bind_ok _ _ _ _ _ O0). rewrite ?bind_assoc. rewrite (bind_ok _ _ _ _ _ O1).
+    unfold ret at 1. cbv beta iota.
+    rewrite (bind_ok _ _ _ _ _ (eq_refl : (fun s0 => (Ok (OpRegister r0, OpRegister r1), s0)) s = _)).
+    cbv beta iota.
+    assert (TR : lift (operand_to_reg (OpRegister r1)) s = (Ok r1, s)) by reflexivity.
+    rewrite (bind_ok _ _ _ _ _ TR).
+    rewrite (bind_ok _ _ _ _ _ (reg_read_64_ok c _ s Hwf H1)).
+    rewrite (bind_ok _ _ _ _ _ (reg_read_64_ok c _ s Hwf H0)).
+    fold r0 r1 d sv. rewrite Hop.
+    rewrite (bind_ok _ _ _ _ _ (eq_refl : lift (Ok res) s = _)). cbv beta iota.
+    unfold bind at 1. unfold bind at 3.
+    destruct (set_flags_u64 c fset fclear res s) as [[[]|e|p|] s1]; try reflexivity.
+    destruct (Z.land fset NO_WRITEBACK =? 0).
+    - rewrite ?bind_assoc. unfold bind. destruct (reg_write_64 c r0 res s1) as [[[]|e|p|] s2]; reflexivity.
+    - reflexivity.
+  Qed.
+End RegReg64NoFlags.
+
+Section Xor64.
+  Variables (c : cfg) (i : instr) (s : mstate).
+  Hypothesis Hwf : wf_regs s.
+  Hypothesis Hrf : 0 <= rflags s < 2 ^ 64.
+  Hypothesis Hn : i_op_count i = 2.
+  Hypothesis K0 : i_op_kind i 0 = OK_Register.
+  Hypothesis K1 : i_op_kind i 1 = OK_Register.
+  Hypothesis H0 : is_gpr64 (i_op_register i 0) = true.
+  Hypothesis H1 : is_gpr64 (i_op_register i 1) = true.
+
+  (* XOR r/m64, r64 on registers: bitwise result, CF = OF = 0, SF/ZF/PF from the result *)
+  Theorem xor_rm64_r64_refines :
+    i_code i = C_Xor_rm64_r64 ->
+    exists s', instr_xor_rm64_r64 c i s = (Ok tt, s') /\ isa_exec (SAlu XOR 64) i s = IDone s' 0.
+  Proof.
+    intros Ec. unfold instr_xor_rm64_r64. rewrite Ec.
+    rewrite (bind_ok _ _ _ _ _ (dbg_code_ok c s _ eq_refl)).
+    rewrite (calc_rm_r_64_regreg c i s Hwf Hn K0 K1 H0 H1 _ _ _ _ eq_refl).
+    change (Z.lor (Z.lor FLAG_ZF FLAG_SF) FLAG_PF) with (arith_fs false false).
+    change (Z.lor FLAG_OF FLAG_CF) with 2049.
+    rewrite (bind_ok _ _ _ _ _ (set_flags_u64_arith c false false _ s Hrf)).
+    change (Z.land (arith_fs false false) NO_WRITEBACK =? 0) with true. cbv iota.
+    rewrite (reg_write_64_ok c _ _ _ H0).
+    eexists. split; [reflexivity|].
+    cbn [isa_exec]. unfold exec_alu, read_op, write_op. rewrite K0, K1. rewrite !rf_read_mod64 by assumption.
+    cbn [alu b2f]. cbn [opt_done]. reflexivity.
+  Qed.
+End Xor64.
